@@ -86,7 +86,7 @@ func genLink(r *verifsim.SplitMix) txLink {
 	return l
 }
 
-var damageKinds = []string{"truncate", "bitflip", "garbage", "foreign_size", "foreign_chunk", "foreign_id", "to_fallback", "tmp_leftover", "data_deleted", "data_shortened", "tear_highest", "tear_highest"}
+var damageKinds = []string{"truncate", "bitflip", "garbage", "foreign_size", "foreign_chunk", "foreign_id", "to_fallback", "tmp_leftover", "data_deleted", "data_shortened", "data_larger", "tear_highest", "tear_highest"}
 
 func (h resumeHarness) Gen(r *verifsim.SplitMix, tier string, idx int) any {
 	sp := genResumeBase(r, h.prop)
@@ -166,6 +166,15 @@ func (h resumeHarness) Gen(r *verifsim.SplitMix, tier string, idx int) any {
 		f := r.Intn(8)
 		sp.NoRoot, sp.Scan = true, "root"
 		sp.Damage = append(sp.Damage, txDamage{Kind: "to_fallback", File: f}, txDamage{Kind: []string{"data_deleted", "data_shortened"}[r.Intn(2)], File: f})
+	}
+	for _, d := range sp.Damage {
+		if d.Kind == "data_larger" {
+			// alone: cut back to its old length by a second damage it would be a file of the
+			// right size and foreign content in EVERY chunk - damage the property does not promise
+			// to detect (only the last recorded chunk is verified)
+			sp.Damage = []txDamage{d}
+			break
+		}
 	}
 	if tier == "thorough" && idx%20 == 0 && h.prop != "C06" {
 		// exhaustive: crash the receiver at every crash point of one schedule
@@ -685,6 +694,24 @@ func applyDamage(sp *txSpec, out string, m manifest.Manifest, d txDamage) string
 		} else {
 			return ""
 		}
+	case "data_larger":
+		// another, longer version of the file was copied over the partial one: other bytes,
+		// 1 byte ... one more copy of its length longer
+		if scErr != nil && !fallbackHolds(sp, out, m, it) {
+			return ""
+		}
+		fi, err := os.Stat(dataPath)
+		if err != nil || fi.Size() == 0 {
+			return ""
+		}
+		extra := []int64{1, int64(sp.Chunk), fi.Size()}[int(verifsim.Mix(sp.Seed, "larger"+it.RelPath)%3)]
+		b := make([]byte, fi.Size()+extra)
+		for i := range b {
+			b[i] = byte(verifsim.Mix(sp.Seed^0x1A26E2, it.RelPath) >> (8 * (uint(i) % 8)) ^ uint64(i)*131)
+		}
+		if os.WriteFile(dataPath, b, 0o644) != nil {
+			return ""
+		}
 	case "tear_highest":
 		if sp.Hash == "none" {
 			return "" // detection is by hash; none is configured
@@ -974,7 +1001,7 @@ func strongestDamage(kinds []string) string {
 		return "synthetic-only"
 	}
 	kinds = real
-	for _, k := range []string{"tear_highest", "to_fallback", "data_deleted", "data_shortened", "foreign_size", "foreign_chunk", "foreign_id", "bitflip", "truncate", "garbage", "tmp_leftover"} {
+	for _, k := range []string{"tear_highest", "to_fallback", "data_deleted", "data_shortened", "data_larger", "foreign_size", "foreign_chunk", "foreign_id", "bitflip", "truncate", "garbage", "tmp_leftover"} {
 		for _, x := range kinds {
 			if x == k {
 				return k
